@@ -634,6 +634,37 @@ pub fn vx_next_allocator<R: Registry>(seq: &mut VxSeq, archetypes: &Archetypes<R
 pub fn vx_next_resources<T>(seq: &mut VxSeq) -> (r: Result<Option<VxResDe<T>>, VxErr>)
     ensures *final(seq) == vx_seq_next(*old(seq)),
             r is Ok && r->Ok_0 is Some ==> (r->Ok_0->0).0 == vx_seq_res::<T>(*old(seq)) { unimplemented!() }
+// ---- R9/A10: the serde Serializer World::serialize writes to.  Ghost state: the elements
+// written so far, each as an abstract token of the value handed to `serialize_element`.
+#[verifier::external_body]
+pub struct VxSerializer { _p: () }
+#[verifier::external_body]
+pub struct VxTuple { _p: () }
+#[verifier::external_body]
+pub struct VxSerOk { _p: () }
+pub struct VxTok { pub id: int }
+pub struct VxResSer<'a, T>(pub &'a T);
+pub uninterp spec fn vx_ser_of<T>(v: T) -> VxTok;
+impl VxSerializer {
+    #[verifier::external_body]
+    pub fn serialize_tuple(self, n: usize) -> (r: Result<VxTuple, VxErr>)
+        ensures r is Ok ==> r->Ok_0.declared() == n && r->Ok_0.elems() == Seq::<VxTok>::empty() { unimplemented!() }
+}
+impl VxTuple {
+    pub uninterp spec fn declared(&self) -> usize;
+    pub uninterp spec fn elems(&self) -> Seq<VxTok>;
+    #[verifier::external_body]
+    pub fn serialize_element<T>(&mut self, v: &T) -> (r: Result<(), VxErr>)
+        ensures final(self).declared() == old(self).declared(),
+                r is Ok ==> final(self).elems() == old(self).elems().push(vx_ser_of(*v)) { unimplemented!() }
+    #[verifier::external_body]
+    pub fn end(self) -> (r: Result<VxSerOk, VxErr>)
+        ensures r is Ok ==> r->Ok_0.elems() == self.elems() && r->Ok_0.declared() == self.declared() { unimplemented!() }
+}
+impl VxSerOk {
+    pub uninterp spec fn declared(&self) -> usize;
+    pub uninterp spec fn elems(&self) -> Seq<VxTok>;
+}
 /// `Option::ok_or_else(|| de::Error::invalid_length(n, &self))`
 #[verifier::external_body]
 pub fn vx_some_or_invalid_length<T>(o: Option<T>, n: usize) -> (r: Result<T, VxErr>)
@@ -860,6 +891,15 @@ def build():
                      (r"self\.resources == other\.resources", "vx_eq_values(&self.resources, &other.resources)", "R15: == on the resource list is user PartialEq (A8)")],
            ensures=[("C16.world_eq", "b == (self.len == other.len && vx_archetypes_eq(self.archetypes, other.archetypes) && vx_allocator_eq(self.entity_allocator, other.entity_allocator) && vx_values_eq(self.resources, other.resources))")],
            props=["C16"]),
+    ])
+
+    u.impl("impl<Registry, Resources> World<Registry, Resources> where Registry: crate::Registry", [
+        Fn(WS, r"^impl<Registry, Resources> serde::Serialize for World<Registry, Resources>", "serialize", ret="r",
+           vis="pub", generics="", where="",
+           params="&self, serializer: VxSerializer", ret_type="Result<VxSerOk, VxErr>",
+           rewrites=[(r"resource::Serializer\(", "VxResSer(", "R7: the resource-list serializer wrapper")],
+           ensures=[("C06.world.serialized_parts", "r is Ok ==> r->Ok_0.declared() == 3 && r->Ok_0.elems() == seq![vx_ser_of(self.archetypes), vx_ser_of(self.entity_allocator), vx_ser_of(VxResSer(&self.resources))]")],
+           props=["C06", "C15", "C01"]),
     ])
     u.text(WORLD_LEMMAS)
     u.type_rewrites += [
